@@ -134,6 +134,7 @@ func (e *seqEnum) run(shard, nshards int) {
 // the last token) and, when recurse is set, its extensions.
 func (e *seqEnum) visit(seq []int, parent, st *ref.State, recurse bool) {
 	depth := len(seq)
+	deadReason := ""
 	if st != nil {
 		reason := ""
 		acc := st.Accepting()
@@ -142,25 +143,24 @@ func (e *seqEnum) visit(seq []int, parent, st *ref.State, recurse bool) {
 		}
 		e.judge(seq, acc, reason)
 	} else {
-		reason := "not viable"
+		deadReason = "not viable"
 		if parent != nil {
-			reason = tokClassOf(e.alpha[seq[depth-1]].g) + " after " + parent.Expecting()
+			deadReason = parent.WhyNot(e.alpha[seq[depth-1]].g)
 		}
-		e.judge(seq, false, reason)
+		e.judge(seq, false, deadReason)
 	}
-	if !recurse {
-		return
-	}
-	if depth >= e.V {
+	if !recurse || depth >= e.V {
 		return
 	}
 	if st == nil {
 		if depth >= e.B {
-			// beyond the brute-force bound: sample one extension of the dead prefix (sticky error)
-			if depth == e.B || parent != nil {
-				ext := append(append([]int{}, seq...), e.r.Intn(len(e.alpha)))
-				e.x.Count("dead_prefix_extensions_sampled")
-				e.judge(ext, false, "extension of a non-viable prefix")
+			// beyond the brute-force bound: every one-token extension of a freshly dead prefix (the
+			// parser's sticky error must hold whatever follows, in particular closing brackets)
+			if parent != nil {
+				for a := range e.alpha {
+					e.x.Count("dead_prefix_extensions")
+					e.judge(append(append([]int{}, seq...), a), false, deadReason)
+				}
 			}
 			return
 		}
